@@ -33,8 +33,9 @@ def strategy(tier):
     return gen.opf_case(cfg=CFG)
 
 
-def input_shapes(case, net, maps):
-    """facts about the input that name a root-cause class of a cost mismatch"""
+def input_shapes(case, net, maps, undispatched):
+    """facts about the input that name a root-cause class of a cost mismatch; undispatched: positions of the cost entries
+    whose element is not a variable of the optimisation (appended)"""
     shapes = set()
     recipe = case["recipe"]
     by_type = {}
@@ -44,6 +45,7 @@ def input_shapes(case, net, maps):
     any_q_slope = any(c.get("cq1_eur_per_mvar") or c.get("cq2_eur_per_mvar2") for c in case["costs"]) or \
         any(c["kind"] == "pwl" and c["power_type"] == "q" for c in case["costs"])
     vm = net.res_bus.va_degree
+    seen = []
     for c in case["costs"]:
         e = by_type[c["et"]][c["k"]]
         idx = maps[c["et"]][c["k"]]
@@ -51,6 +53,8 @@ def input_shapes(case, net, maps):
         dead = any(math.isnan(float(vm.at[b])) for b in buses)
         if not gen._dispatchable(e) or dead:
             shapes.add("undispatched-entry")
+            undispatched.append(len(seen))
+        seen.append(c)
         if c["kind"] == "poly":
             even = c.get("cp2_eur_per_mw2") or c.get("cp0_eur")
             if c["et"] in ("load", "storage"):
@@ -90,7 +94,8 @@ def check(case):
     if not net.get("OPF_converged", False):
         res.skipped = "not-converged"
         return res
-    shapes = input_shapes(case, net, maps)
+    undispatched = []
+    shapes = input_shapes(case, net, maps, undispatched)
     # ---- oracle A: res_cost = sum of the user's cost functions at the result powers
     total, parts = gen.user_cost(net, maps, case["costs"], ac)
     scale = 1.0 + sum(abs(p[-1]) for p in parts)
@@ -121,6 +126,12 @@ def check(case):
             if not retried:
                 got = total
         if abs(got - total) > tolA * scale:
+            if undispatched:
+                # the entries of elements that are not dispatched are either left out of res_cost (a constant is missing) or
+                # charged to another generator (lookup entry -1): tell the two apart by the observation
+                only_dispatched = sum(p[-1] for k, p in enumerate(parts) if k not in undispatched)
+                if abs(got - only_dispatched) <= tolA * scale:
+                    shapes = (set(shapes) - {"undispatched-entry"}) | {"undispatched-entry-dropped"}
             res.fail("res_cost/%s/%s" % (opt["mode"], "+".join(sorted(shapes)) or "other"), res_cost=got, user_cost=total,
                      parts=[list(p) for p in parts][:10])
     # ---- oracle B: independent optimum (DC)
